@@ -682,6 +682,11 @@ def _decorate_fn_or_cls(decorator,
     decorated_class = cls
     construction_fn = _find_class_construction_fn(decorated_class)
     decorated_fn = decorator(_ensure_wrappability(construction_fn))
+    if construction_fn is object.__init__:
+      # No class in the MRO defines a constructor: `cls()` takes no arguments,
+      # but `inspect.signature(cls)` only says so while `cls.__init__` is
+      # `object.__init__` itself, whose own signature is `(*args, **kwargs)`.
+      decorated_fn.__signature__ = inspect.signature(lambda self, /: None)
     if construction_fn.__name__ == '__new__':
       decorated_fn = staticmethod(decorated_fn)
     setattr(decorated_class, construction_fn.__name__, decorated_fn)
